@@ -66,4 +66,12 @@ func init() {
 	add("C13", "R13h: no read of the restore code turns io.EOF into success (the formats announce their record counts). R13i: a failing return of a stream function hands out the running total. R13j: the count of a stream operation is added to the total before the error test that follows it, so the bytes a failing operation did transfer are reported.", "")
 	add("C03", "R03i: neither hash input of the parent-hash step in the core can be the default value of its variable (no path leaves the sibling unassigned).", "")
 	add("C04", "R04e also covers the mirror image: a library-computed slice indexed by a counter whose only bound is the length of a caller-supplied slice needs a dominating test relating the two lengths (verification bounds the caller's lists from below only).", "")
+	add("C03", "R03k: the work loop of the hashing core falls through to the success return only on a test that looks at a cursor of the loop or at the result of a call given one; every other exit is an error.", "")
+	add("C06", "R06h (disjunctive): a root position the map forest's undo re-creates holds a node again - the add-undo step stores the empty node after the empty-root step on every continuing path, or the entry writes the previous roots back on every success path; the rule fires only when neither holds.", "")
+	add("C07", "R07i: the threaded-state rule over the closure of (*Proof).Update.", "")
+	add("C09", "R09h: the loop of NewMapPollardFromRoots stores a node on every iteration. R09i: a stored node whose hash was just recomputed with parentHash carries the configuration flag, a constant or the flag already stored at that position.", "")
+	add("C14", "R14i: the threaded-state rule over the closure of the C14 entries. R14j: the single-target proof-position helper (found by role) is never accumulated over a loop of targets. R14k (E7): in the stand-alone GetMissingPositions the list subtracted from the request and the held list handed to ProofPositions are in class sorted(P), the sorted copy of the caller's proof targets element for element.", "")
+	add("C15", "R15j: the threaded-state rule over the closure of AddBlockSummary and GenerateCachingSchedule.", "")
+	add("C16", "R16c: every left shift by a variable amount in the closure is computed in a 64-bit type. R16d: a leaf count converted to a signed integer type is never an operand of arithmetic.", "")
+	add("C17", "Memory is flow-insensitive except for private cells (a field of a local variable whose address never leaves the function), which are read through reaching definitions: a write after the field was re-pointed to a fresh slice on every path is a write into the copy.", "")
 }
